@@ -283,8 +283,17 @@ impl Gw {
     }
 }
 
+/// like `setup`, but always with at least one registered signer set
+pub fn setup_with_sets(rng: &mut Rng, sink: &mut Sink) -> Gw {
+    setup_n(rng, sink, true)
+}
+
 /// deploy a gateway with a random configuration; returns the generator-side mirror
 pub fn setup(rng: &mut Rng, sink: &mut Sink) -> Gw {
+    setup_n(rng, sink, false)
+}
+
+fn setup_n(rng: &mut Rng, sink: &mut Sink, nonempty: bool) -> Gw {
     sink.exec("reset");
     let keys = Keys::new(rng, 6);
     let owner = user(0);
@@ -297,7 +306,8 @@ pub fn setup(rng: &mut Rng, sink: &mut Sink) -> Gw {
     let domain = rng.bytes(32);
     let min_delay = *rng.pick(&[0u128, 0, 10, 100]);
     let operator = if rng.chance(1, 5) { vec![0u8; 32] } else { user(1) };
-    let nsets = rng.range(1, 2) as usize;
+    // now and then a gateway with no signer set registered at all (epoch 0)
+    let nsets = if !nonempty && rng.chance(1, 8) { 0 } else { rng.range(1, 2) as usize };
     let mut sets = vec![];
     let mut a = vec![nat(retention), domain.clone(), nat(min_delay), operator.clone()];
     for _ in 0..nsets {
@@ -368,8 +378,7 @@ pub fn gen(rng: &mut Rng, n: usize, sink: &mut Sink, focus: &str) {
                 if rng.chance(1, 30) && !raw.is_empty() {
                     raw.pop(); // malformed batch
                 }
-                let set = rng.pick(&gw.sets).clone();
-                let set = if rng.chance(1, 20) { rand_set(rng, 6) } else { set }; // unregistered set
+                let set = if gw.sets.is_empty() || rng.chance(1, 20) { rand_set(rng, 6) } else { rng.pick(&gw.sets).clone() }; // sometimes an unregistered set
                 let slots = gw.slots(rng, &set);
                 let mut proof = gw.proof(rng, sink, &set, 0, &raw, &slots);
                 if rng.chance(1, 40) {
@@ -388,12 +397,18 @@ pub fn gen(rng: &mut Rng, n: usize, sink: &mut Sink, focus: &str) {
                 // rotateSigners
                 let raw = if rng.chance(1, 5) {
                     malformed_set(rng, &gw.keys)
-                } else if rng.chance(1, 8) {
+                } else if rng.chance(1, 8) && !gw.sets.is_empty() {
                     rng.pick(&gw.sets).enc(&gw.keys) // duplicate
                 } else {
                     rand_set(rng, 6).enc(&gw.keys)
                 };
-                let signing = if rng.chance(1, 2) { gw.sets.last().unwrap().clone() } else { rng.pick(&gw.sets).clone() };
+                let signing = if gw.sets.is_empty() {
+                    rand_set(rng, 6)
+                } else if rng.chance(1, 2) {
+                    gw.sets.last().unwrap().clone()
+                } else {
+                    rng.pick(&gw.sets).clone()
+                };
                 let slots = gw.slots(rng, &signing);
                 let proof = gw.proof(rng, sink, &signing, 1, &raw, &slots);
                 let caller = if rng.chance(1, 2) { gw.operator.clone() } else { user(rng.below(4) as u8) };
@@ -457,7 +472,7 @@ pub fn gen(rng: &mut Rng, n: usize, sink: &mut Sink, focus: &str) {
                     _ => {
                         // validateProof view with a proof over an arbitrary data hash
                         let dh = rng.bytes(32);
-                        let set = rng.pick(&gw.sets).clone();
+                        let set = if gw.sets.is_empty() { rand_set(rng, 6) } else { rng.pick(&gw.sets).clone() };
                         let sh = set.hash(&gw.keys);
                         let d = keccak(&cat(&[PREFIX, &gw.domain, &sh, &dh]));
                         let mut proof = set.enc(&gw.keys);
